@@ -60,6 +60,11 @@ def constructs():
     add("console", 'rule %s { condition: console.log("size=", filesize) and console.hex("h=", filesize) }', imports=("console",))
     add("defined", 'rule %s { condition: not defined pe.entry_point or pe.entry_point >= 0 }', imports=("pe",))
     add("manystrings", 'rule %s { strings: ' + " ".join('$s%d = "str%04d"' % (i, i) for i in range(40)) + ' condition: any of them }')
+    # minimal rule sets: buffers of the compiled image that hold only a few bytes (one-instruction regexp code, a one-letter namespace name)
+    add("tinymatches", 'rule %s { condition: "a" matches /x/ }')
+    add("tinyns", 'rule %s { condition: true }', ns="n")
+    add("tinyrule", 'rule a { condition: true }', ns="n")          # one-letter rule in a one-letter namespace: a 4-byte string pool when compiled alone
+    add("tinyns2", 'rule %s { condition: filesize >= 0 }', ns="ab")
     add("ruleset", 'rule %s_a { condition: filesize > 2 } rule %s_b { condition: filesize > 100 } rule %s { condition: 1 of (%s_*) }')
     return K
 
